@@ -1692,6 +1692,23 @@ func RunC09(ctx *core.Ctx) {
 		{Cols: []c09Col{{Opt: true}}, MCols: 1, Storage: "buffer", PageBuf: 4096, Batches: []int{10}, Path: "rows", Pattern: "fixed",
 			Inputs: [][]c09Row{{{K: [3]int64{10}}, {Null: [3]bool{true}, Seq: 1}}, {{K: [3]int64{17}, Inp: 1}, {K: [3]int64{17}, Inp: 1, Seq: 1}, {K: [3]int64{18}, Inp: 1, Seq: 2}}}},
 	}
+	// the minimal input of the cut-lookup defect (mixed page with nulls), deterministic as well
+	{
+		mk := func(inp int32, lo, n, nulls int) []c09Row {
+			var rows []c09Row
+			for i := 0; i < n; i++ {
+				rows = append(rows, c09Row{K: [3]int64{int64(lo + i)}, Inp: inp, Seq: int32(i)})
+			}
+			for i := 0; i < nulls; i++ {
+				rows = append(rows, c09Row{Null: [3]bool{true}, Inp: inp, Seq: int32(n + i)})
+			}
+			return rows
+		}
+		for _, path := range []string{"rows", "write"} {
+			fixed = append(fixed, &c09Case{Cols: []c09Col{{Opt: true}}, MCols: 0, Storage: "mixed", PageBuf: 256, Batches: []int{100}, Path: path,
+				Pattern: "fixed-cuts", Inputs: [][]c09Row{mk(0, 3544, 2237, 44), mk(1, 43, 1736, 38)}})
+		}
+	}
 	for _, c := range fixed {
 		c09Check(ctx, c, nil)
 	}
